@@ -9,6 +9,7 @@ from ..caseval import Ev
 from .lie_common import lib_call
 
 SHARDS = {"quick": 8, "thorough": 16}
+REQUIRED_REACH = ['derive_control_allocation', 'saturate']
 RULE = ("random demands (thrust from far below 0 to far above 4 F_max, moments from 0 to far beyond saturation, log-uniform positive "
         "F_max, l, Cm, Ct) + boundary-directed demands built from target motor-force vectors on a power-of-two geometry so that the "
         "headroom quantities C1 = F_max - max(F) and C2 = min(F) are hit at exactly 0 and on both sides in every combination; oracle = "
